@@ -348,6 +348,31 @@ def shard(p):
             inputs.append(("structured", gen_structured(rng, vocab)))
         else:
             inputs.append(("mutation", mutate(rng, rng.choice(p["corpus"]))))
+    # operator sequences with `to` among them (see c12), evaluated: a share per shard
+    import itertools
+    OPS7 = ["+", "-", "*", "/", "^", "**", "to"]
+    k_ = 0
+    for L in (2, 3, 4, 5):
+        for seq in itertools.product(OPS7, repeat=L):
+            k_ += 1
+            if k_ % 16 != p["shard"] % 16 or (L == 5 and (k_ // 16 + p["seed"]) % 4):
+                continue
+            toks = ["3 km"]
+            for o in seq:
+                toks += [o, rng.choice(["m", "mi", "s"]) if o == "to" else rng.choice(["2", "2 m", "1"])]
+            inputs.append(("opseq", " ".join(toks)))
+    # the same unit twice in one unit text under every ordered pair of prefixes (km/m, yg/kg, mK*kK ...): the tool may refuse the mix -
+    # the refusal has to be a located error like any other (seed C11-i: rendering the message panics for one prefix of one unit)
+    PX = ["Y", "Z", "E", "P", "T", "G", "M", "k", "h", "da", "", "d", "c", "m", "μ", "u", "n", "p", "f", "a", "z", "y"]
+    units_ = ["g", "m", "s", "A", "K", "mol", "cd", "B", "N", "J", "W", "Pa", "l", "V", "Hz", "eV", "t", "b"]
+    k_ = 0
+    for u_ in units_:
+        for a_ in PX:
+            for b_ in PX:
+                k_ += 1
+                if a_ == b_ or k_ % 16 != p["shard"] % 16:
+                    continue
+                inputs.append(("prefixpair", "1 %s%s%s%s%s" % (a_, u_, rng.choice(["/", "*", " "]), b_, u_)))
     inputs = [(f, s if f == "tower" else bound_powers(s)) for f, s in inputs]
     for kind in p["builds"]:
         d = Driver(p["bins"][kind])
